@@ -32,20 +32,20 @@ type gTmpl struct {
 
 // gData is what is written: entries of a group; each entry maps member tag -> value or nested group data.
 type gEntry struct {
-	Vals map[int]string  `json:"vals"`
+	Vals map[int]string   `json:"vals"`
 	Subs map[int][]gEntry `json:"subs,omitempty"`
 }
 
 type c13Case struct {
-	Dict    string   `json:"dict,omitempty"` // "" = generated template, no dictionary available
-	MsgType string   `json:"msgtype"`
-	Begin   string   `json:"begin"`
-	Group   gTmpl    `json:"group"`
-	Entries []gEntry `json:"entries"`
-	Before  [][2]string `json:"before,omitempty"` // body fields with smaller tags
-	After   [][2]string `json:"after,omitempty"`  // body fields with larger tags
-	Mode    int      `json:"mode"` // 0 no dictionary, 1 defining dictionary, 2 transport + defining dictionary
-	Rewrite bool     `json:"rewrite,omitempty"` // every group is set twice (first with one entry less), as an application building it up would
+	Dict    string      `json:"dict,omitempty"` // "" = generated template, no dictionary available
+	MsgType string      `json:"msgtype"`
+	Begin   string      `json:"begin"`
+	Group   gTmpl       `json:"group"`
+	Entries []gEntry    `json:"entries"`
+	Before  [][2]string `json:"before,omitempty"`  // body fields with smaller tags
+	After   [][2]string `json:"after,omitempty"`   // body fields with larger tags
+	Mode    int         `json:"mode"`              // 0 no dictionary, 1 defining dictionary, 2 transport + defining dictionary
+	Rewrite bool        `json:"rewrite,omitempty"` // every group is set twice (first with one entry less), as an application building it up would
 }
 
 func (t gTmpl) template() quickfix.GroupTemplate {
